@@ -35,12 +35,12 @@ var bigBounds = map[string]bound{
 	"catdb":   {16, 1 << 20, 4000},
 	"catcls":  {16, 1 << 20, 4000},
 	"catatt":  {16, 1 << 20, 4000},
-	"wal":     {8, 1 << 20, 4000},
-	"index":   {8, 1 << 20, 4000},
+	"wal":     {64, 1 << 20, 4000}, // 19 B/B seen on mutated segments with many records (thorough sweep)
+	"index":   {32, 1 << 20, 4000},
 	"control": {8, 1 << 20, 2000},
 	"seq":     {8, 1 << 20, 2000},
 	"relmap":  {8, 1 << 20, 2000},
-	"cksum":   {8, 1 << 20, 4000},
+	"cksum":   {32, 1 << 20, 4000},
 	"jsonb":   {40, 1 << 20, 4000},
 	"numeric": {64, 1 << 20, 4000},
 	"array":   {64, 1 << 20, 4000},
